@@ -8,7 +8,8 @@
 EXTENDS Naturals, TLC
 
 CONSTANTS MaxChanges,
-          GuardedDrop      \* FALSE: drop_handles may run while committed changes are still unmatched (code as found)
+          GuardedDrop,     \* FALSE: drop_handles may run while committed changes are still unmatched (code as found)
+          RestoreMarksRunning   \* TRUE: a restored subscription is marked "running" again (run_restore); FALSE: the marker stays "completed"
 
 VARIABLES meta,       \* "none" | "created" | "running" | "completed" | "cancelled": the marker in the subscription database
           dir,        \* the subscription directory exists
@@ -32,7 +33,7 @@ MatchStep == /\ unmatched > 0 /\ proc # "down" /\ unmatched' = unmatched - 1
                 ELSE IF proc = "dropped" \/ ~served THEN lost' = lost + 1 /\ UNCHANGED chan   \* no handle left: silently skipped
                 ELSE chan' = chan + 1 /\ UNCHANGED lost
              /\ UNCHANGED <<meta, dir, proc, served>>
-Process == /\ chan > 0 /\ meta = "running" /\ proc \in {"up", "tripped", "dropped"} /\ chan' = chan - 1
+Process == /\ chan > 0 /\ (meta = "running" \/ (~RestoreMarksRunning /\ served /\ meta = "completed")) /\ proc \in {"up", "tripped", "dropped"} /\ chan' = chan - 1
            /\ UNCHANGED <<meta, dir, proc, unmatched, lost, served>>
 Trip == /\ proc = "up" /\ proc' = "tripped" /\ UNCHANGED <<meta, dir, unmatched, chan, lost, served>>
 DropHandles == /\ proc = "tripped" /\ (GuardedDrop => unmatched = 0)
@@ -48,7 +49,7 @@ Kill == /\ proc # "down" /\ proc' = "down" /\ served' = FALSE /\ unmatched' = 0 
         /\ UNCHANGED <<meta, dir>>
 (* setup_spawn_subscriptions: restore only what was marked completed, remove everything else *)
 Start == /\ proc = "down" /\ proc' = "up"
-         /\ IF dir /\ meta = "completed" THEN meta' = "running" /\ served' = TRUE /\ UNCHANGED dir
+         /\ IF dir /\ meta = "completed" THEN meta' = (IF RestoreMarksRunning THEN "running" ELSE "completed") /\ served' = TRUE /\ UNCHANGED dir
             ELSE meta' = "none" /\ dir' = FALSE /\ served' = FALSE
          /\ lost' = IF dir /\ meta = "completed" THEN lost ELSE 0
          /\ UNCHANGED <<unmatched, chan>>
